@@ -8,7 +8,7 @@
 //   conv  <fmt> <nat> <dst> <tlx> <tly> <dx> <dy> <file>  nat <img> | conv <img> | ref <img> | cview <img> <canary>
 //         read_image (native type), read_and_convert_image, copy_and_convert_pixels of the native read, read_and_convert_view
 //   skips <fmt> <dst> <pattern> <file>                    img <img> | full ok|err:io | sk <it==end> <row hex>... | sk err:io
-//         the scanline iterator driven by a pattern of d (*it; ++it), D (*it; *it; ++it), s (++it without dereferencing)
+//         the scanline iterator driven by a pattern of d (*it; ++it), D (*it; *it; ++it), p (*it++), s (++it without dereferencing)
 //   small <fmt> <dst> <vw> <vh> <tlx> <tly> <dx> <dy> <file>   ok|err:io <canary>       read_view into a view smaller than the region
 // <img> = <w> <h> <channel bytes hex> | err:io | ub
 #include "../C12/c12.hpp"
@@ -124,6 +124,9 @@ template <typename Tag, typename Img> std::string op_skips(std::string const& pa
             if (pat[i] == 's') { size_t j = i; while (j < pat.size() && pat[j] == 's') ++j;
                 if (j - i > 1) std::advance(it, (long)(j - i)); else ++it;
                 pos += (long)(j - i); i = j; continue; }
+            if (pat[i] == 'p') {        // *it++: the postfix proxy of an input iterator dereferences, then increments
+                unsigned char const* b = *it++;
+                bytes row; scan<Tag>::row(rd, b, nch, row); out += " " + hex(row); ++i; ++pos; continue; }
             unsigned char const* b = *it;
             for (int rep = 0; rep < (pat[i] == 'D' ? 2 : 1); ++rep) {       // D: the same position dereferenced twice, both rows reported
                 if (rep) b = *it;
